@@ -465,7 +465,7 @@ def _export_paths_only(
     export_function = _validate_and_get_export_func(
         file_path, extensions_map, extension, overwrite
     )
-    export_function(obj, file_path, **exporter_kwargs)
+    export_function(obj, _norm_path(file_path), **exporter_kwargs)
 
 
 def _export(obj, fp, extensions_map, extension, overwrite, exporter_kwargs=None):
@@ -500,7 +500,8 @@ def _export(obj, fp, extensions_map, extension, overwrite, exporter_kwargs=None)
             fp, extensions_map, extension, overwrite, return_extension=True
         )
 
-        with fp.open("wb") as file_handle:
+        # write to the path that was validated (``~`` and variables expanded)
+        with _norm_path(fp).open("wb") as file_handle:
             export_function(obj, file_handle, extension=extension, **exporter_kwargs)
     else:
         # You MUST provide an extension if a file handle is given
